@@ -1,0 +1,45 @@
+//go:build verif
+
+// Contracts for the verifier in /verif (comment-only file; contributes no declarations).
+package urltree
+
+// The URL trie, structurally. A lookup WALKS the trie along the parts of the URL; which nodes it visits and which node it
+// answers with is what "the most specific declared pattern wins" means at this level:
+//   - at every step the child under the literal part is taken if there is one (of the same host/path kind), otherwise
+//     the path-parameter child (of the same kind), otherwise the walk stops;
+//   - a wildcard child seen on the way is only a fall-back, and the DEEPEST one on the walked path wins.
+// Ghost: path[i] is the node reached after i parts (path[0] is the root); wj is the position on the path of the node whose
+// wildcard child is the current fall-back.
+//@ pure splitURL
+//@ pure getDelimiter
+//@ pure trimURL
+
+// the tree holds no nil child entries
+//@ ghost func nodesOK() bool = forall(n, *Node[int], allocated(n) ==> forall(k, string, in(k, n.ConstantChildren) ==> n.ConstantChildren[k] != nil && allocated(n.ConstantChildren[k])) && (n.ParametricChild.Child != nil ==> allocated(n.ParametricChild.Child)) && (n.WildcardChild != nil ==> allocated(n.WildcardChild)))
+// one step of the walk: from n, on part p, to m
+//@ ghost func litStep(n *Node[int], p urlPart) bool = in(p.Value, n.ConstantChildren) && n.ConstantChildren[p.Value].IsPartOfHost == p.IsPartOfHost
+//@ ghost func parStep(n *Node[int], p urlPart) bool = !litStep(n, p) && n.ParametricChild.Child != nil && n.ParametricChild.Child.IsPartOfHost == p.IsPartOfHost
+//@ ghost func stepTo(n *Node[int], p urlPart, m *Node[int]) bool = (litStep(n, p) && m == n.ConstantChildren[p.Value]) || (parStep(n, p) && m == n.ParametricChild.Child)
+
+//@ func lookupNode
+//@   prop C13
+//@   instantiate T=int
+//@   ghostlocal path gmap[int]*Node[int]
+//@   ghostlocal wj int
+//@   ghostlocal nw int
+//@   requires urlTree != nil && urlTree.Root != nil && allocated(urlTree.Root) && nodesOK()
+//@   modifies nothing
+//@   allocates map
+//@   on entry do path[0] = urlTree.Root; wj = -1; nw = 0
+//@   loop 1 modifies mapof(params), path, wj, nw
+//@   loop 1 do path[idx1] = currentNode; wj = ite(path[idx1-1].WildcardChild != nil, idx1 - 1, wj); nw = idx1
+//@   loop 1 invariant[own-params-map] params == nil || fresh_since_entry(params)
+//@   loop 1 invariant[on-the-path] nw == idx1 && path[0] == urlTree.Root && currentNode == path[idx1] && currentNode != nil && allocated(currentNode)
+//@   loop 1 invariant[literal-then-parameter] forall(j, 0, idx1, path[j] != nil && allocated(path[j]) && stepTo(path[j], splitURL[j], path[j+1]))
+//@   loop 1 invariant[deepest-wildcard] -1 <= wj && wj < idx1 && (wj == -1 ==> foundWildcardNode == nil && forall(j, 0, idx1, path[j].WildcardChild == nil)) && (wj >= 0 ==> foundWildcardNode != nil && foundWildcardNode == path[wj].WildcardChild && forall(j, wj + 1, idx1, path[j].WildcardChild == nil))
+//@   ensures[walk-starts-at-the-root] path[0] == urlTree.Root && 0 <= nw && nw <= len(splitURL)
+//@   ensures[literal-then-parameter] forall(j, 0, nw, stepTo(path[j], splitURL[j], path[j+1]))
+//@   ensures[stops-only-without-a-child] nw < len(splitURL) ==> !litStep(path[nw], splitURL[nw]) && !parStep(path[nw], splitURL[nw])
+//@   ensures[exact-node-wins] nw == len(splitURL) && path[nw].Value != nil ==> result.match && result.node == path[nw]
+//@   ensures[deepest-wildcard-is-the-fall-back] result.match && !(nw == len(splitURL) && path[nw].Value != nil) ==> result.node != nil && exists(d, 0, nw + 1, result.node == path[d].WildcardChild && forall(j, d + 1, nw + 1, path[j].WildcardChild == nil))
+//@   ensures[no-match-without-a-wildcard] !result.match && !(nw < len(splitURL) && strings.HasPrefix(splitURL[nw].Value, "{") && strings.HasSuffix(splitURL[nw].Value, "}")) ==> forall(j, 0, nw + 1, path[j].WildcardChild == nil)
